@@ -1660,7 +1660,7 @@ def _contains(t, needle, _seen=None):
 def run(ctx):
     ctx.assume("pandas semantics of read_table/read_csv, boolean masks, groupby/transform('size'), sort_values, set_index/.at, to_dict are the documented ones")
     ctx.assume("the optional loss-probability assignment (_assign_out_prob) is outside the claim; it is treated as an order-preserving column assignment")
-    rule_L4(ctx)
+    ctx.soft(rule_L4)
     try:
         L = Load(ctx)
     except Unsupported as ex:
